@@ -160,8 +160,10 @@ BACKENDS = [("cvode", "dense", "cpu", "src/naunet_fex.cpp", False),
             ("odeint", "rosenbrock4", "cpu", "src/naunet_ode.cpp", False)]
 
 
-def check_desc(res, model, desc, rng, tag, channel_b=False):
+def check_desc(res, model, desc, rng, tag, channel_b=False, after=None):
     case = {"kind": "c01", "desc": desc}
+    if after is not None:
+        case["after"] = after          # generated right after this description in the same process
     a = ol.analyse(desc, model)
     stmts = [ol.strip_lhs(s) for s in a.ode.fex]
     nre = len(desc["reactions"])
@@ -255,7 +257,13 @@ def run(res, info):
     for i, d in enumerate(FIXED):
         check_desc(res, model, d, rng, ("fixed", i), channel_b=True)
     for i in range(n_a):
-        check_desc(res, model, gen_desc(rng, "small" if i % 5 else "large"), rng, i, channel_b=(i < n_b))
+        desc = gen_desc(rng, "small" if i % 5 else "large")
+        check_desc(res, model, desc, rng, i, channel_b=(i < n_b))
+        if i % 3 == 0:
+            # ... and, in the same process, the same species set in (usually) another order
+            d2 = ol.follow_up(rng, desc)
+            if d2 is not None:
+                check_desc(res, model, d2, rng, (i, "follow-up"), channel_b=(i < n_b), after=desc)
     if model:
         model.close()
 
@@ -265,6 +273,10 @@ def replay(rp, info):
     model = fw.Model() if info["ok"] else None
     case = rp.get("case") or {}
     if "desc" in case:
+        if case.get("after"):
+            prev = case["after"]
+            prev["reactions"] = [tuple(x) for x in prev["reactions"]]
+            check_desc(fw.Result("C01", "quick", 0), model, prev, random.Random(0), "replay-before", channel_b=True)
         d = case["desc"]
         d["reactions"] = [tuple(x) for x in d["reactions"]]
         check_desc(res, model, d, random.Random(0), "replay", channel_b=True)
